@@ -1,6 +1,6 @@
 #!/bin/sh
 # usage: sweep.sh "<seeds>" [props...]  — runs quick checks over seeds on the unchanged tree; prints anything that is not a clean exit 0
-cd /verif
+cd "$(dirname "$0")/.."
 seeds=$1; shift
 props=${@:-$(python3 -c "import json;print(' '.join(json.load(open('tools/ready.json'))))")}
 for p in $props; do
